@@ -73,9 +73,9 @@ def gen_requests(rng, world, density):
                 if kind in ("rename", "introduce_factory", "introduce_parameter", "method_object"):
                     req["new_name"] = pick_name(rng)
                 if kind == "rename":
-                    # docs=True at an offset that selects no name never returns (open finding C09-rename-docs-hang,
-                    # replayed on every run): the stream keeps docs=True to identifier offsets
-                    if cat in ("identifier", "identifier-end") and rng.random() < 0.15:
+                    # docs=True at every offset category: at an offset that selects no name rope used to search the
+                    # text for '' (hang / IndexError; fixed in repo 3048e16, regression: corpus/C09/rename-docs-hang*.json)
+                    if rng.random() < 0.15:
                         req["docs"] = True
                     if rng.random() < 0.1:
                         req["in_hierarchy"] = True
@@ -333,8 +333,13 @@ def structural_class(world, r, check):
             return ("module-renamed-to-invalid-name: Rename of a module/package accepts a new name that is not an "
                     "identifier")
         if getattr(r, "announced_foreign", None):
+            label = kind
+            if kind == "inline":          # InlineMethod was repaired in repo 94f57ce; InlineVariable is a sibling
+                d = str(spec[1]) if spec[0] == "CS" else ""
+                label = ("inline_variable" if d.startswith("Inline variable") else
+                         "inline_method" if d.startswith("Inline method") else "inline")
             return ("out-of-project-resource-changed: %s computes a change of the out-of-project module that "
-                    "defines the selected name" % kind)
+                    "defines the selected name" % label)
         if getattr(r, "announced_ignored_by_rope", None) or any(
                 L.is_ignored_by_construction(a) for a in announced_real_paths(r)):
             return ("ignored-resource-changed: %s computes a change of an ignored resource (the module that defines "
@@ -516,6 +521,15 @@ class Session:
 
     def serve(self, req):
         r = L.serve(self.base, self.world, self.project, req)
+        if r.outcome == "hang":
+            # confirm on a fresh project with a four times longer limit (a loaded machine is not a hang)
+            self.open()
+            old = L.TIME_LIMIT
+            L.TIME_LIMIT = old * 4
+            try:
+                r = L.serve(self.base, self.world, self.project, req)
+            finally:
+                L.TIME_LIMIT = old
         r.base = self.base
         if r.performed:
             self.pending_rebuild = L.content_view(r.s3) != L.content_view(r.s0)
@@ -564,6 +578,8 @@ def replay_obj(world, r, check, text, cls):
 
 
 def signature(obj):
+    if obj.get("fixed_by"):
+        return "regression of repo commit %s" % obj["fixed_by"]      # corpus inputs never match a known finding
     if obj.get("class"):
         return obj["class"]
     if obj.get("kind") == "request":
@@ -611,7 +627,7 @@ def run(ctx):
                 "names x optional resources= restriction. Every request is computed under the audit hook; every returned "
                 "change is performed and undone. A case is non-trivial when a change with at least one leaf came back and "
                 "was performed; distinct by (world files, request).")
-    n_worlds = ctx.scale(5, 24)
+    n_worlds = ctx.scale(5, 36)
     density = ctx.scale(0.18, 0.6)
     budget = ctx.scale(900, 2200)               # requests per world
     terms, owners = [], []
